@@ -89,6 +89,21 @@ def work(job: Tuple[Case, bool, Tuple[str, ...]]) -> Dict[str, Any]:
                 cname = [k for k in main.scope if k.startswith("BYTES_LENGTH_")]
             except Inconclusive as e:
                 res["inconclusive"].append(f"{case.name}.{tname}: {e}")
+            # struct fields hold their leaves in the smallest covering Go integer type (value-independent)
+            try:
+                for sl, l in zip(leaf_slots(I, I.zero(MT), msg), lay.leaves()):
+                    _v, bits, isb = get_leaf(sl, l)
+                    u = gosym.under(sl[0][sl[1]].t)
+                    if l.kind == "bool":
+                        if not isb:
+                            res["violations"].append(_viol(case, tname, optimize, "type", {x.path: 0 for x in lay.leaves()}, lay, f"{l.pname()} is bool in the schema but {sl[0][sl[1]].t} in Go"))
+                        continue
+                    want = next(b for b in (8, 16, 32, 64) if b >= l.n)
+                    if isb or bits != want or bool(getattr(u, "signed", False)) != (l.kind == "int"):
+                        res["violations"].append(_viol(case, tname, optimize, "type", {x.path: 0 for x in lay.leaves()}, lay, f"{l.pname()} ({l.kind}{l.n}) is declared {sl[0][sl[1]].t} ({'signed' if getattr(u, 'signed', False) else 'unsigned'} {bits} bits) in Go, the smallest covering type has {want} bits"))
+                res["obligations"] += len(lay.leaves())
+            except Inconclusive as e:
+                res["inconclusive"].append(f"{case.name}.{tname}: {e}")
             for op in ops:
                 eng = Engine(max_paths=64)
                 pysym.set_engine(eng)
